@@ -191,6 +191,30 @@ fn decode(t: &mut Tape) -> Case {
                 );
             }
         }
+        // accesses wider than any pool scalar (136..512 bits, what vector registers need): a load
+        // of that width assembled from the byte-wise initial image / narrower stores, sometimes
+        // stored back at another offset and loaded again across the seam of the wide store
+        if t.chance(1, 4) {
+            let w = *t.pick(&[136usize, 192, 256, 256, 256, 512]);
+            let n = (w / 8) as usize;
+            let sc = il::scalar(format!("v{}", w), w);
+            names.insert(sc.name().to_string(), w);
+            let span = SCRATCH_LEN as usize + 16 - n; // the image is mapped up to SCRATCH + 88
+            let mut seq = vec![il::Operation::Load { dst: sc.clone(), index: konst(SCRATCH + t.below(span + 1) as u64, addr_bits) }];
+            if t.chance(1, 2) {
+                let a = SCRATCH + t.below(span + 1) as u64;
+                seq.push(il::Operation::Store { index: konst(a, addr_bits), src: il::Expression::Scalar(sc.clone()) });
+                let d = 1 + t.below(n - 1) as u64;
+                let a2 = if a + d <= SCRATCH + span as u64 { a + d } else { a - d.min(a - SCRATCH + 8) };
+                seq.push(il::Operation::Load { dst: sc.clone(), index: konst(a2, addr_bits) });
+            }
+            let b = t.below(spec.blocks.len().min(2));
+            let pos = t.below(spec.blocks[b].len() + 1);
+            for (k, op) in seq.into_iter().enumerate() {
+                count += 1;
+                spec.blocks[b].insert(pos + k, OpSpec { op, address: Some(base + 4 * count) });
+            }
+        }
         // several IL instructions per machine address, as lifters produce
         for ops in spec.blocks.iter_mut() {
             for k in 1..ops.len() {
@@ -1261,6 +1285,9 @@ fn note_effect(eff: &Effect, pre: &Pre, case: &Case, obs: &mut Obs, stats: &mut 
             if value.w == 128 {
                 obs.class("store-128");
             }
+            if value.w > 128 {
+                obs.class("store-wider-than-128");
+            }
             if (*addr & !(PAGE - 1)) == (BLOB_ADDR & !(PAGE - 1)) || (addr.wrapping_add(n.max(1) - 1) & !(PAGE - 1)) == (BLOB_ADDR & !(PAGE - 1)) {
                 *blob_page_written = true;
             }
@@ -1275,6 +1302,9 @@ fn note_effect(eff: &Effect, pre: &Pre, case: &Case, obs: &mut Obs, stats: &mut 
             }
             if value.w == 128 {
                 obs.class("load-128");
+            }
+            if value.w > 128 {
+                obs.class("load-wider-than-128");
             }
         }
         _ => {}
@@ -1405,6 +1435,8 @@ fn main() -> std::process::ExitCode {
         ("big-endian-wide-store", 0.08),
         ("store-128", 0.04),
         ("load-128", 0.025),
+        ("load-wider-than-128", 0.08),
+        ("store-wider-than-128", 0.04),
         ("initial-missing-scalar", 0.10),
         ("fault-undefined-scalar", 0.05),
         ("fault-unmapped", 0.015),
